@@ -13,8 +13,12 @@ const MaxMsgpackDepth = 10000
 
 // MsgpackDepth walks an encoded MessagePack value without decoding it and
 // returns how deep its non-empty arrays and maps nest. It fails as soon as the depth
-// exceeds MaxMsgpackDepth. Malformed or truncated input is not its business, it
-// stops there and leaves the error to the decoder.
+// exceeds MaxMsgpackDepth. It also fails when an array, map, string or binary
+// announces more than the rest of the body can hold (every value takes at least
+// one byte): the decoder allocates what a header announces before it reads, a
+// body of a few bytes can make it ask for hundreds of gigabytes, which ends the
+// process. Otherwise malformed or truncated input is not its business, it stops
+// there and leaves the error to the decoder.
 func MsgpackDepth(b []byte) (int, error) {
 	// Number of values still missing in each open array or map
 	open := make([]uint64, 0, 16)
@@ -86,8 +90,8 @@ func MsgpackDepth(b []byte) (int, error) {
 			if isContainer {
 				items = n * perItem
 			} else {
-				if n > uint64(len(b)) {
-					return maxDepth, nil
+				if n > uint64(len(b)-i) {
+					return maxDepth, fmt.Errorf("a value announces %d bytes, %d are left", n, len(b)-i)
 				}
 				skip += int(n)
 			}
@@ -96,6 +100,9 @@ func MsgpackDepth(b []byte) (int, error) {
 			return maxDepth, nil
 		}
 		i += skip
+		if isContainer && items > uint64(len(b)-i) {
+			return maxDepth, fmt.Errorf("an array or map announces %d values, %d bytes are left", items, len(b)-i)
+		}
 		if isContainer && items > 0 {
 			open = append(open, items)
 			if len(open) > maxDepth {
